@@ -1,6 +1,10 @@
 import PqV.Lemmas.KVarint
 import PqV.Lemmas.Varint
 import PqV.Impl.ThriftSer
+import PqV.Lemmas.KBitpacked
+import PqV.Lemmas.KHybrid
+import PqV.Lemmas.KDelta
+import PqV.Lemmas.KPlain
 /-!
 # C12 — native code stays inside its buffers and the process never crashes
 Model-level safety: the code-shaped models return an explicit `Fault` for every load or store
@@ -55,5 +59,42 @@ theorem tobytes_overflows (bs : List Nat) (h : 500000 ≤ bs.length) :
       ThriftSer.lookup, PqV.Gen.Specs.loopHi, PqV.Gen.Specs.loopLo]
   · simp [ThriftSer.toBytesSize, PqV.Gen.Specs.sizeFloor, PqV.Gen.Specs.sizePerUnit]
     omega
+
+/-! ### "no Fault" on every in-bounds input, for the kernels whose refinement is proved
+(a successful result of the code-shaped model means: no load or store outside the buffers, no
+out-of-range shift, at any point of the run) -/
+
+/-- `read_bitpacked`, every width ≤ 24: any header, any position, any room in the output -/
+theorem readBitpacked_safe (buf : List Nat) (hbytes : ∀ b ∈ buf, b < 256) (ip0 header w : Nat) (o : Out) (hw : w ≤ 24)
+    (h0 : ip0 < buf.length) (hbuf : ip0 + (header / 2 * 8 * w + 7) / 8 ≤ buf.length) :
+    ∃ r, readBitpacked buf ip0 header w o 4 = .ok r :=
+  ⟨_, readBitpacked_ok buf hbytes ip0 header w o hw h0 hbuf⟩
+
+/-- `read_rle_bit_packed_hybrid`, widths 1..24, on every well-formed run stream -/
+theorem readHybrid_safe (w : Nat) (hw1 : 1 ≤ w) (hw : w ≤ 24) (rs : List Run) (pre post : List Nat) (n : Nat)
+    (hok : ∀ r ∈ rs, r.wf w = true ∧ RunOk r) (hpre : ∀ b ∈ pre, b < 256) (hpost : ∀ b ∈ post, b < 256)
+    (hn : n ≤ (rs.flatMap Run.values).length) :
+    ∃ r, readHybrid (pre ++ encodeRuns w rs ++ post) pre.length w (encodeRuns w rs).length { items := [], cap := 4 * n } 4 = .ok r := by
+  obtain ⟨o', loc', h, _⟩ := readHybrid_eq_spec w hw1 hw rs pre post n hok hpre hpost hn
+  exact ⟨_, h⟩
+
+/-- `delta_read_bitpacked`, widths 1..28, any count, whenever the miniblock's bytes are there -/
+theorem deltaReadBitpacked_safe (buf : List Nat) (hbytes : ∀ b ∈ buf, b < 256) (loc0 w n : Nat) (hw1 : 1 ≤ w) (hw : w ≤ 28)
+    (hbuf : loc0 + (n * w + 7) / 8 ≤ buf.length) : ∃ r, deltaReadBitpacked buf loc0 w n = .ok r :=
+  ⟨_, deltaReadBitpacked_ok buf hbytes loc0 w n hw1 hw hbuf⟩
+
+/-- `read_bitpacked1`: room for `count` items and `⌈count/8⌉` bytes present -/
+theorem readBitpacked1_safe (buf : List Nat) (hbytes : ∀ b ∈ buf, b < 256) (ip count : Nat) (o : Out)
+    (hcap : count ≤ o.cap) (hlen : ip + (count + 7) / 8 ≤ buf.length) : ∃ r, readBitpacked1 buf ip count o = .ok r :=
+  ⟨_, readBitpacked1_refines buf hbytes ip count o hcap hlen⟩
+
+/-- `unpack_byte_array` on every buffer a conforming PLAIN BYTE_ARRAY page can hold (each item shorter
+    than 2^31 bytes).  A length prefix that points past the buffer is the known finding. -/
+theorem unpackByteArray_safe (items : List (List Nat)) (hl : ∀ it ∈ items, it.length < 2 ^ 31) (pre tail : List Nat) :
+    ∃ r, unpackByteArray (pre ++ packByteArray items ++ tail) pre.length items.length = .ok r :=
+  ⟨_, unpackByteArray_roundtrip items hl pre tail⟩
+
+/-- …and the over-read is real at model level: a length prefix of 5 with 2 bytes behind it faults -/
+example : unpackByteArray [5, 0, 0, 0, 1, 2] 0 1 = .error (.oobRead 8 6) := by decide
 
 end PqV.Props.C12
